@@ -600,6 +600,7 @@ type parOp struct {
 	in     []byte // bytes given to Decode
 	fdesc  string
 	left   int
+	prior  []byte // unread content of the task's buffer before its Encode
 }
 
 type callLite struct {
@@ -699,6 +700,11 @@ func runC20(c *RunCtx) {
 				base = Clone(m)
 			}
 			op := &parOp{name: name, msg: m, pre: Clone(m), buf: &bytes.Buffer{}}
+			if t.Intn(3) == 0 {
+				// the task's send buffer already holds unread bytes (earlier frames of its own)
+				op.prior = noise(t, 1+t.Intn(200))
+				op.buf = bytes.NewBuffer(cloneBytes(op.prior))
+			}
 			if t.Intn(2) == 0 {
 				op.doDecode = true
 				op.recv = newValue(name)
@@ -723,6 +729,9 @@ func runC20(c *RunCtx) {
 				cd := asCodec(op.msg)
 				op.encRes = liteCall(func() error { return cd.Encode(op.buf) })
 				op.out = cloneBytes(op.buf.Bytes())
+				if len(op.out) >= len(op.prior) {
+					op.out = op.out[len(op.prior):]
+				}
 				if !op.doDecode || op.encRes.Err != nil || op.encRes.Panic != nil {
 					op.doDecode = false
 					continue
@@ -816,8 +825,11 @@ func runC20(c *RunCtx) {
 	for ti, ops := range plans {
 		for _, op := range ops {
 			c.Oracle("parallel-equals-alone")
-			var ab bytes.Buffer
+			ab := *bytes.NewBuffer(cloneBytes(op.prior))
 			ar := tryEncode(Clone(op.pre), &ab)
+			if ab.Len() >= len(op.prior) {
+				ab.Next(len(op.prior))
+			}
 			aFailed := ar.Err != nil || ar.Panic != nil
 			pFailed := op.encRes.Err != nil || op.encRes.Panic != nil
 			if aFailed != pFailed {
